@@ -126,3 +126,47 @@ Example C11_commit_as_needed_session :
                           exists cw'', cstep fixed 2 cw' (VIdCommitAsNeeded 0 0) = Some (cw'', CDone) /\ iw cw'' = iw cw /\
                                        sx (ci (ucache_of cw'' 0)) = sx (ci (ucache_of cw 0))).
 Proof. exact Cache.commit_as_needed_runs_fixed. Qed.
+
+(* ---- added after the audit of the unchanged tree (C11-A3, C11-A4, C11-A1) ---- *)
+
+(* Identity.Commit, repaired: when it accepts, the new chain extends the chain the reference holds: no version the reference had
+   (after a pull: the pulled ones) is dropped, whichever in-memory object commits *)
+Theorem C11_identity_commit_keeps_versions ref known news l : id_commit true ref known news = Some l -> exists s, l = ref ++ s.
+Proof. exact (Cache.id_commit_keeps_versions ref known news l). Qed.
+Print Assumptions C11_identity_commit_keeps_versions.
+
+(* the code as found: an object that knows [1] commits version 2 while the reference holds [1; 3] (version 3 was pulled): [1; 2] *)
+Theorem C11_identity_commit_unguarded_refuted : exists ref known news l, id_commit false ref known news = Some l /\ ~ exists s, l = ref ++ s.
+Proof. exact Cache.id_commit_unguarded_refuted. Qed.
+Print Assumptions C11_identity_commit_unguarded_refuted.
+
+(* RepoCache.Pull, repaired, reads every merge result (the sub-caches register merged entities while their results are read; C11_pull_visible
+   and C11_coherent then hold whatever the statuses are, refused entities included); as found it stopped at the first refused entity *)
+Theorem C11_pull_reads_every_result rs : pull_read true rs = rs.
+Proof. exact (Cache.pull_reads_every_result rs). Qed.
+Print Assumptions C11_pull_reads_every_result.
+Theorem C11_pull_early_return_refuted : exists rs, In MNew rs /\ ~ In MNew (pull_read false rs).
+Proof. exact Cache.pull_early_return_refuted. Qed.
+Print Assumptions C11_pull_early_return_refuted.
+
+(* a pull in which an identity edited on both sides is refused and a bug is new: outcome (invalid; new), the identity keeps the local chain,
+   the bug is listed, indexed and resolvable at once *)
+Example C11_refused_pull_session :
+  exists cw, crun fixed 2 (cw0 2) witness_refused_pull = Some cw /\
+  exists cw', cstep fixed 2 cw (VPull 0 [1] [(0, 0%N, 0%N)]) = Some (cw', CPulled [MInvalid] [MNew]) /\
+              quiescentb_at cw' 0 = true /\
+              gfi (iw cw') 0 1 = Some [2%N; 5%N] /\
+              kget 0 (sx (cb (ucache_of cw' 0))) = Some (clean (0, [100%N])) /\
+              kget 0 (si (cb (ucache_of cw' 0))) = Some (clean (0, [100%N])) /\
+              bug_served cw' 0 (cb (ucache_of cw' 0)) 0 = Some (clean (0, [100%N])).
+Proof. exact Cache.refused_pull_runs_fixed. Qed.
+
+(* closing with an uncommitted operation: the excerpt holds it; K_C11.forget (the repaired Close) then reopen: excerpts and index = rebuilt *)
+Example C11_close_with_uncommitted_session :
+  exists cw, crun fixed 2 (cw0 2) witness_close_staged = Some cw /\ quiescentb_at cw 0 = false /\
+  kget 0 (sx (cb (ucache_of cw 0))) = Some {| m_base := (0, [100%N]); m_staged := [101%N] |} /\
+  cstep fixed 2 cw (VReopen 0 0) = None /\
+  exists cw', cstep fixed 2 (forget cw 0) (VReopen 0 0) = Some (cw', CDone) /\
+              sx (cb (ucache_of cw' 0)) = rebuild (bug_git cw' 0) /\ si (cb (ucache_of cw' 0)) = rebuild (bug_git cw' 0) /\
+              sl (cb (ucache_of cw' 0)) = [].
+Proof. exact K_C11.close_staged_runs_fixed. Qed.
